@@ -289,10 +289,10 @@ class _FilesystemDataSource(DataSource):
                     # Filter down to files that begin with file_prefix
                     if entry.name.startswith(file_prefix):
                         entry_name = unquote(entry.name)
-                        if entry_name.endswith(".link"):
-                            entry_name = entry_name[
-                                0:-5
-                            ]  # strip .link off end of string
+                        if entry_name.endswith(".link") and not entry.is_dir():
+                            # strip .link off the end of the name of a link file (a directory,
+                            # e.g. that of a function whose version ends in ".link", keeps its name)
+                            entry_name = entry_name[0:-5]
                         if endswith is not None and not entry_name.endswith(endswith):
                             continue
                         count += 1
